@@ -25,6 +25,62 @@ def getSteps (j : Json) (k : String) : R (List Step) := do
     | .ok s => stepOf s
     | .error _ => .error s!"field {k}: step is not a string"
 
+/-- steps of a history with width changes: the four strings above, `"create"` (`create_new()`), or
+    `["set_width", w]` (the `max_bit_width` setter) -/
+def wstepOf (x : Json) : R WStep :=
+  match x.getStr? with
+  | .ok s => if s == "create" then .ok .createNew else WStep.op <$> stepOf s
+  | .error _ =>
+    match x.getArr? with
+    | .ok a =>
+      match a.toList with
+      | [t, v] =>
+        match t.getStr?, v.getNat? with
+        | .ok "set_width", .ok w => .ok (.setWidth w)
+        | _, _ => .error "step: expected [\"set_width\", w]"
+      | _ => .error "step: expected [\"set_width\", w]"
+    | .error _ => .error "step: neither a string nor an array"
+
+def getWSteps (j : Json) (k : String) : R (List WStep) := do
+  let a ← getArr j k
+  a.mapM wstepOf
+
+/-- operations of an in-memory history: `["call"]`, `["calls", n, …]` (n calls; further elements name the
+    entry point used by the harness and are ignored), `["set_width", w]`, `["set_count", c]` -/
+def memOpsOf (x : Json) : R (List MemOp) :=
+  match x.getArr? with
+  | .error _ => .error "ops: entry is not an array"
+  | .ok a =>
+    match a.toList with
+    | [] => .error "ops: empty entry"
+    | t :: rest =>
+      match t.getStr?, rest with
+      | .ok "call", _ => .ok [.call]
+      | .ok "calls", n :: _ =>
+        match n.getNat? with
+        | .ok k => .ok (List.replicate k .call)
+        | .error _ => .error "ops: calls needs a count"
+      | .ok "set_width", w :: _ =>
+        match w.getNat? with
+        | .ok k => .ok [.setWidth k]
+        | .error _ => .error "ops: set_width needs a width"
+      | .ok "set_count", c :: _ =>
+        match c.getInt? with
+        | .ok k => .ok [.setCount k]
+        | .error _ => .error "ops: set_count needs an integer"
+      | _, _ => .error "ops: unknown entry"
+
+def getIntList (j : Json) (k : String) : R (List Int) := do
+  let a ← getArr j k
+  a.mapM fun x =>
+    match x.getInt? with
+    | .ok n => .ok n
+    | .error _ => .error s!"field {k}: not an integer"
+
+/-- positions (in call order) at which the comparison run left the value open -/
+def openIdx (l : List (Nat × Bool)) : List Nat :=
+  ((l.zipIdx).filter (fun p => p.1.2)).map (·.2)
+
 /-- value → number, error → category name, nothing → null -/
 def outJ : Out → Json
   | .val v => jn v
@@ -42,19 +98,35 @@ def fileJ : File → Json
   | some s => js (String.ofList s)
 
 def ops : List (String × Handler) := [
+  -- without "ops": n_calls calls on a new provider of the width. With "ops": a new provider of the width, the
+  -- history `ops` (calls, width changes, `count` assignments), then n_calls calls - run by `memRunOpen`: the model
+  -- step for step, except that at a call whose value the property leaves open (first call after a width the count does
+  -- not fit / after a `count` assignment) the next value of "rebase" (what the implementation returned there) is taken as
+  -- the count when it is in range. "free" lists those calls.
   ("seq_mem_run", fun j => do
       let w ← getNat j "width"
       let n ← getNat j "n_calls"
-      pure (obj [("ok", obj [("values", jarr ((memRun (Mem.new w) n).map jn))])])),
-  -- the first instance is created on `initial` (creating the file when it is absent), then the steps run
+      match j.getObjVal? "ops" with
+      | .error _ => pure (obj [("ok", obj [("values", jarr ((memRun (Mem.new w) n).map jn))])])
+      | .ok _ =>
+        let parts ← (← getArr j "ops").mapM memOpsOf
+        let rebase ← match j.getObjVal? "rebase" with
+          | .error _ => pure []
+          | .ok _ => getIntList j "rebase"
+        let r := memRunOpen (MemS.new w) false rebase (parts.flatten ++ List.replicate n .call)
+        pure (obj [("ok", obj [("values", jarr (r.map fun p => jn p.1)),
+                               ("free", jarr ((openIdx r).map jn))])])),
+  -- the first instance is created on `initial` (creating the file when it is absent), then the steps run; the width in
+  -- force (changed by ["set_width", w] steps) is part of the state: a restart is a new instance of that width, the peek
+  -- after a step is what a new instance of that width reads
   ("seq_file_run", fun j => do
       let w ← getNat j "width"
       let f ← getFile j "initial"
-      let steps ← getSteps j "steps"
-      let t := trace w (init f) steps
+      let steps ← getWSteps j "steps"
+      let t := wtrace (w, init f) steps
       pure (obj [("ok", obj [("results", jarr (t.map fun p => outJ p.1)),
-                             ("peeks", jarr (t.map fun p => peekJ w p.2)),
-                             ("files", jarr (t.map fun p => fileJ p.2))])])),
+                             ("peeks", jarr (t.map fun p => peekJ p.2.1 p.2.2)),
+                             ("files", jarr (t.map fun p => fileJ p.2.2))])])),
   -- one method call on an instance whose file holds `initial`, or has been removed (`null`)
   ("seq_file_once", fun j => do
       let w ← getNat j "width"
